@@ -24,7 +24,7 @@ func init() {
 			"oracle: (differential) identical postings / metadata / error class under all four behaviours; (monitor, on the exact store's query log) @world is never requested and every (account, asset) the reference semantics reads was requested before; " +
 			"non-trivial = the script makes >= 2 store calls (an early request followed by the preload) or reads >= 2 distinct pairs; distinct = script text + inputs (one case covers its four behaviours; executions counts every run)",
 		Assumptions: []string{"the overdraft() feature flag is on for scripts that use it", "each run gets its own deep copy of the store content, so the in-place update of StaticStore maps (C11's subject) cannot leak between runs"},
-		QuickBudget: 70 * time.Second,
+		QuickBudget: 240 * time.Second,
 		ThoroBudget: 12 * time.Minute,
 		Run:         runC10,
 	})
